@@ -61,6 +61,103 @@ func c06() []scenario {
 			tc.GetCertificate(&tls.ClientHelloInfo{ServerName: sni})
 		}
 	}
+	// Scenarios that need a Config nobody has used yet build one per iteration (an RSA key generation each); the
+	// others share one Config and get their cold cache from host names never used before.
+	shared := newCfg()
+	expiring := newCfg()
+	// +-1ns around the issuance instant, DER times are whole seconds: NotAfter is the start of the current second, so
+	// every cached certificate has already expired when it is looked up again and the replacement path runs every time
+	expiring.SetValidity(time.Nanosecond)
+	seq := 0
+	fresh := func(label string) string { seq++; return fmt.Sprintf("%s%d.test", label, seq) }
+	violation := func(sig, format string, a ...interface{}) {
+		fmt.Fprintf(os.Stderr, "RACEBODY VIOLATION "+sig+" "+format+"\n", a...)
+	}
+	// use does what a handshake does with the object GetCertificate returned, for as long as the handshake lasts:
+	// it reads every field, and checks that the certificate names the host that was asked for
+	use := func(c *mitm.Config, host, sni, name string) func() {
+		return func() {
+			for k := 0; k < 3; k++ {
+				crt, err := c.TLSForHost(host).GetCertificate(&tls.ClientHelloInfo{ServerName: sni})
+				if err != nil || crt == nil {
+					violation("parallel_use:error", "GetCertificate(%q, sni %q): %v", host, sni, err)
+					return
+				}
+				for r := 0; r < 3; r++ {
+					n := 0
+					for _, der := range crt.Certificate {
+						for _, b := range der {
+							n += int(b)
+						}
+					}
+					leaf := crt.Leaf
+					if leaf == nil || crt.PrivateKey == nil || len(crt.Certificate) != 2 || n == 0 || len(crt.Certificate[0]) != len(leaf.Raw) {
+						violation("parallel_use:certificate_changed_while_in_use", "the certificate returned for %q lost or changed fields while its requester was still using it", name)
+						return
+					}
+					if err := leaf.VerifyHostname(name); err != nil {
+						violation("parallel_use:certificate_for_other_name", "requester of %q holds a certificate with CN %q DNS %q IP %v: %v", name, leaf.Subject.CommonName, leaf.DNSNames, leaf.IPAddresses, err)
+						return
+					}
+					if err := leaf.CheckSignatureFrom(ca); err != nil {
+						violation("parallel_use:not_signed_by_ca", "certificate for %q: %v", name, err)
+						return
+					}
+				}
+			}
+		}
+	}
+	// shake performs a complete TLS handshake over an in-memory pipe; the client verifies the presented leaf for the
+	// name it asked for (signature by the CA, host name, and - except on the Config whose certificates expire at once
+	// by construction - validity now)
+	shake := func(c *mitm.Config, host, sni, name string) func() {
+		checkTime := c != expiring
+		return func() {
+			cc, sc := net.Pipe()
+			defer cc.Close()
+			defer sc.Close()
+			dl := time.Now().Add(60 * time.Second) // hang guard only
+			cc.SetDeadline(dl)
+			sc.SetDeadline(dl)
+			done := make(chan error, 1)
+			go func() {
+				s := tls.Server(sc, c.TLSForHost(host))
+				err := s.Handshake()
+				if err == nil {
+					_, err = s.Write([]byte("k"))
+				}
+				if err != nil {
+					sc.Close()
+				}
+				done <- err
+			}()
+			ccfg := &tls.Config{ServerName: sni, InsecureSkipVerify: true, VerifyConnection: func(cs tls.ConnectionState) error {
+				if len(cs.PeerCertificates) == 0 {
+					return fmt.Errorf("no peer certificate")
+				}
+				leaf := cs.PeerCertificates[0]
+				if err := leaf.CheckSignatureFrom(ca); err != nil {
+					return err
+				}
+				if now := time.Now(); checkTime && (now.Before(leaf.NotBefore) || now.After(leaf.NotAfter)) {
+					return fmt.Errorf("not valid now: %s .. %s", leaf.NotBefore, leaf.NotAfter)
+				}
+				return leaf.VerifyHostname(name)
+			}}
+			cl := tls.Client(cc, ccfg)
+			cerr := cl.Handshake()
+			if cerr == nil {
+				b := make([]byte, 1)
+				_, cerr = cl.Read(b)
+			}
+			if cerr != nil {
+				cc.Close()
+			}
+			if serr := <-done; cerr != nil || serr != nil {
+				violation("parallel_handshake:failed", "handshake for %q (CONNECT %q, SNI %q) among concurrent handshakes: client %v, server %v", name, host, sni, cerr, serr)
+			}
+		}
+	}
 	return []scenario{
 		{"c06: distinct uncached hosts", func() {
 			c := newCfg()
@@ -68,13 +165,56 @@ func c06() []scenario {
 		}},
 		{"c06: same uncached host", func() { c := newCfg(); parallel(get(c, "a.test:443", ""), get(c, "a.test", ""), get(c, "", "a.test")) }},
 		{"c06: cached and uncached", func() {
-			c := newCfg()
-			get(c, "a.test:443", "")()
-			parallel(get(c, "a.test:443", ""), get(c, "b.test:443", ""), get(c, "a.test:443", "b.test"))
+			c, a, b := shared, fresh("a"), fresh("b")
+			get(c, a+":443", "")()
+			parallel(get(c, a+":443", ""), get(c, b+":443", ""), get(c, a+":443", b))
 		}},
 		{"c06: TLS() entry point", func() {
-			c := newCfg()
-			parallel(func() { c.TLS().GetCertificate(&tls.ClientHelloInfo{ServerName: "x.test"}) }, func() { c.TLS().GetCertificate(&tls.ClientHelloInfo{ServerName: "y.test"}) }, get(c, "x.test", ""))
+			c, x, y := shared, fresh("x"), fresh("y")
+			parallel(func() { c.TLS().GetCertificate(&tls.ClientHelloInfo{ServerName: x}) }, func() { c.TLS().GetCertificate(&tls.ClientHelloInfo{ServerName: y}) }, get(c, x, ""))
+		}},
+		{"c06: expired entries replaced while their holders still use them", func() {
+			c, a, b := expiring, fresh("ea"), fresh("eb")
+			ip := fmt.Sprintf("10.%d.%d.%d", seq>>16&255, seq>>8&255, seq&255)
+			use(c, a, "", a)() // cached and, one instant later, expired
+			use(c, ip, "", ip)()
+			parallel(use(c, a, "", a), use(c, a+":443", "", a), use(c, "other.test:443", a, a), use(c, b, "", b), use(c, ip+":8443", "", ip), use(c, ip, "", ip))
+		}},
+		{"c06: cached entries used while others are issued", func() {
+			c, a, b, d := shared, fresh("ua"), fresh("ub"), fresh("ud")
+			use(c, a, "", a)()
+			parallel(use(c, a, "", a), use(c, a+":443", "", a), use(c, b, "", b), use(c, "[2001:db8::1]:443", d, d), use(c, "[2001:db8::2]:443", "", "2001:db8::2"))
+		}},
+		{"c06: one TLS() config shared by concurrent hellos (listener use)", func() {
+			// tls.NewListener(l, cfg.TLS()): every connection's ClientHello is answered by the same tls.Config.
+			// The constructors are called through a table indexed at run time: inlined into this function their
+			// closures would carry a main.* name and a race inside them would not be attributed to martian.
+			mk := []func(*mitm.Config) *tls.Config{(*mitm.Config).TLS, func(c *mitm.Config) *tls.Config { return c.TLSForHost("listener.test:443") }}
+			tc := mk[seq%2](shared)
+			hello := func(name string) func() {
+				return func() {
+					for k := 0; k < 4; k++ {
+						crt, err := tc.GetCertificate(&tls.ClientHelloInfo{ServerName: name})
+						if err != nil || crt == nil || crt.Leaf == nil {
+							violation("parallel_shared_config:error", "GetCertificate(sni %q) on a shared TLS() config: %v", name, err)
+							return
+						}
+						if err := crt.Leaf.VerifyHostname(name); err != nil {
+							violation("parallel_shared_config:certificate_for_other_name", "hello for %q on a shared TLS() config got CN %q DNS %q IP %v", name, crt.Leaf.Subject.CommonName, crt.Leaf.DNSNames, crt.Leaf.IPAddresses)
+							return
+						}
+					}
+				}
+			}
+			a, b, d := fresh("la"), fresh("lb"), fresh("ld")
+			hello(a)() // a is cached, b and d are not
+			parallel(hello(a), hello(b), hello(a), hello(d), hello(b))
+		}},
+		{"c06: concurrent real handshakes", func() {
+			c, a, b := shared, fresh("ha"), fresh("hb")
+			ip := fmt.Sprintf("11.%d.%d.%d", seq>>16&255, seq>>8&255, seq&255)
+			parallel(shake(c, a+":443", a, a), shake(c, a+":443", "", a), shake(c, b+":443", b, b), shake(c, a+":443", b, b), shake(c, ip+":443", "", ip))
+			parallel(shake(expiring, a+":443", a, a), shake(expiring, a+":443", a, a), shake(expiring, ip+":443", "", ip))
 		}},
 	}
 }
@@ -239,7 +379,132 @@ func c14() []scenario {
 		}
 		parallel(worker(0), worker(1), worker(2), worker(3))
 	}
-	return []scenario{{"c14: concurrent messages through one spec stack", run}}
+	// requests AND responses share the hop-by-hop modifier; the number of Connection tokens varies from message
+	// to message (1..9: below, at and above the length of the fixed hop-by-hop list)
+	mixed := func() {
+		outer, _ := httpspec.NewStack("racebody")
+		const workers = 6
+		worker := func(w int) func() {
+			return func() {
+				for k := 0; k < 150; k++ {
+					n := 1 + (w*3+k)%9
+					h := http.Header{}
+					var toks []string
+					for j := 0; j < n; j++ {
+						t := fmt.Sprintf("X-W%d-%d", w, j)
+						toks = append(toks, t)
+						h.Set(t, "1")
+					}
+					h.Set("Connection", strings.Join(toks, ", "))
+					var kept []string
+					for j := 0; j < 9; j++ { // the names the next worker lists are end-to-end here
+						t := fmt.Sprintf("X-W%d-%d", (w+1)%workers, j)
+						kept = append(kept, t)
+						h.Set(t, "2")
+					}
+					h.Set("Upgrade", "websocket")
+					req, _ := http.NewRequest("GET", "http://example.com/", nil)
+					_, remove, err := martian.TestContext(req, nil, nil)
+					if err != nil {
+						panic(err)
+					}
+					if w%2 == 0 {
+						req.Header = h
+						outer.ModifyRequest(req)
+					} else {
+						res := &http.Response{StatusCode: 200, Proto: "HTTP/1.1", ProtoMajor: 1, ProtoMinor: 1, Header: h, Body: http.NoBody, Request: req}
+						outer.ModifyResponse(res)
+						if res.StatusCode != 200 {
+							fmt.Fprintf(os.Stderr, "RACEBODY VIOLATION via:status_changed a response to a request without a loop got status %d under concurrency\n", res.StatusCode)
+						}
+					}
+					remove()
+					for _, t := range toks {
+						if _, ok := h[t]; ok {
+							fmt.Fprintf(os.Stderr, "RACEBODY VIOLATION hopbyhop:listed_header_survives a header named in this message's Connection header (%d tokens) survived under concurrency\n", n)
+							break
+						}
+					}
+					if _, ok := h["Upgrade"]; ok || h.Get("Connection") != "" {
+						fmt.Fprintf(os.Stderr, "RACEBODY VIOLATION hopbyhop:fixed_header_survives Connection / Upgrade survived under concurrency\n")
+					}
+					for _, t := range kept {
+						if h.Get(t) != "2" {
+							fmt.Fprintf(os.Stderr, "RACEBODY VIOLATION hopbyhop:unlisted_header_removed an end-to-end header was removed because another concurrent message listed it\n")
+							break
+						}
+					}
+				}
+			}
+		}
+		var fs []func()
+		for w := 0; w < workers; w++ {
+			fs = append(fs, worker(w))
+		}
+		parallel(fs...)
+	}
+	// looping and forwarded exchanges at the same time: what the Via modifier decides for one request must
+	// not show on another exchange's request or response
+	loops := func() {
+		outer, _ := httpspec.NewStack("racebody")
+		probe, _ := http.NewRequest("GET", "http://example.com/", nil)
+		_, remove, err := martian.TestContext(probe, nil, nil)
+		if err != nil {
+			panic(err)
+		}
+		outer.ModifyRequest(probe)
+		remove()
+		f := strings.Fields(probe.Header.Get("Via"))
+		if len(f) != 2 {
+			fmt.Fprintf(os.Stderr, "RACEBODY VIOLATION via:not_exactly_one_entry probe request got Via %q\n", probe.Header.Get("Via"))
+			return
+		}
+		self := f[1]
+		worker := func(w int) func() {
+			return func() {
+				for k := 0; k < 200; k++ {
+					req, _ := http.NewRequest("GET", "http://example.com/", nil)
+					looping := w%2 == 0
+					switch {
+					case looping && w%4 == 0:
+						req.Header["Via"] = []string{"1.0 fred, 1.1 " + self}
+					case looping:
+						req.Header["Via"] = []string{"1.0 fred", "1.1\t" + self + " (x)"}
+					default:
+						req.Header["Via"] = []string{"1.0 fred", "1.1 other-" + fmt.Sprint(w)}
+					}
+					ctx, remove, err := martian.TestContext(req, nil, nil)
+					if err != nil {
+						panic(err)
+					}
+					rerr := outer.ModifyRequest(req)
+					skipped := ctx.SkippingRoundTrip()
+					res := &http.Response{StatusCode: 200, Proto: "HTTP/1.1", ProtoMajor: 1, ProtoMinor: 1, Header: http.Header{}, Body: http.NoBody, Request: req}
+					outer.ModifyResponse(res)
+					remove()
+					if looping && (!skipped || rerr == nil || res.StatusCode != 400) {
+						fmt.Fprintf(os.Stderr, "RACEBODY VIOLATION via:loop_not_refused a request whose Via names this instance: skipped=%v err=%v status=%d under concurrency\n", skipped, rerr, res.StatusCode)
+					}
+					if !looping {
+						own := 0
+						vs := strings.Split(strings.Join(req.Header["Via"], ","), ",")
+						for _, e := range vs {
+							if g := strings.Fields(e); len(g) > 1 && g[1] == self {
+								own++
+							}
+						}
+						if skipped || rerr != nil || res.StatusCode != 200 || own != 1 || len(vs) != 3 {
+							fmt.Fprintf(os.Stderr, "RACEBODY VIOLATION via:forwarded_request_disturbed a request without a loop: skipped=%v err=%v status=%d Via=%q under concurrency\n", skipped, rerr, res.StatusCode, req.Header["Via"])
+						}
+					}
+				}
+			}
+		}
+		parallel(worker(0), worker(1), worker(2), worker(3))
+	}
+	return []scenario{{"c14: concurrent messages through one spec stack", run},
+		{"c14: concurrent requests and responses with 1..9 Connection tokens", mixed},
+		{"c14: concurrent looping and forwarded exchanges", loops}}
 }
 
 type sink struct {
